@@ -713,3 +713,11 @@ pub open spec fn mw_final<W: Stream>(m0: Mp4Writer<W>, out: Seq<u8>, moov: MoovB
     &&& moov.mvhd.version == (if m0.duration > 0xffff_ffff { 1u8 } else { 0u8 }) && moov.mvex is None && moov.meta is None && moov.udta is None
     &&& (moov_exact(moov) ==> out == wr(mdat_size_patch(flush_all(m0.writer.data(), p0, m0.tracks@, n), m0.mdat_pos as int, pn - m0.mdat_pos), pn, moov_bytes(moov)))
 }
+
+/// a muxer step only appends: everything before the old write position is kept, the stream does not shrink, and a writer that
+/// stood at the end of its stream still does
+pub open spec fn stream_grows<W: Stream>(a: W, b: W) -> bool {
+    &&& b.pos() >= a.pos() && b.data().len() >= a.data().len()
+    &&& forall|i: int| 0 <= i < a.pos() && i < a.data().len() ==> #[trigger] b.data()[i] == a.data()[i]
+    &&& (a.pos() == a.data().len() ==> b.pos() == b.data().len())
+}
